@@ -38,10 +38,22 @@ def split_classes():
     return [M for M in I.explicit_methods() if getattr(M, "tableau_final", None) is None]
 
 
+_SEEN = set()
+
+
 def by_name(name):
     de, I = _imports()
     for M in I.explicit_methods() + I.implicit_methods():
         if M.__name__ == name:
+            if name not in _SEEN:
+                # the FIRST instances of every class in this process are single- and half-precision ones, built and thrown away: whatever a class keeps
+                # from an earlier instance (converted tables, caches) must not reach the instances the conditions are evaluated on
+                _SEEN.add(name)
+                for lowp in (np.float32, np.float16):
+                    try:
+                        M((2,), dtype=np.dtype(lowp))
+                    except Exception:
+                        pass
             return M
     raise KeyError(name)
 
